@@ -548,6 +548,10 @@ def c19(acc):
     summ, viol, _ = harness(["writer-replay", "--file", p, "--prop", acc.pid, "--out-dir", REPLAY_DIR])
     acc.add_harness(summ, viol, "B:replay event sequences")
     writer_traces(acc, 400 if q else 5000)
+    # the serde serializer's indentation obeys the same rule: indented and plain serializations of every family value
+    # (mixed text/element content included) read back as the same logical document and deserialize to equal values
+    _, ps = mc_serde(acc, RT_TYPES, "rt", "MC_Serde-c19")
+    serde_replay(acc, ps, "c19", "B:serde values x quote levels x {plain, 2 blanks, tab} x expand-empty (indentation must not touch content)")
     return acc.finish()
 
 
@@ -578,7 +582,7 @@ def c17(acc):
     return acc.finish()
 
 
-RT_TYPES = ["F01", "F02", "F03", "F04", "F05", "F07", "F08", "F11", "F15", "F16", "F17", "F18", "F19", "F20", "F22", "F23", "F24", "F25", "F26", "F27"]
+RT_TYPES = ["F01", "F02", "F03", "F04", "F05", "F07", "F08", "F11", "F15", "F16", "F17", "F18", "F19", "F20", "F22", "F23", "F24", "F25", "F26", "F27", "F28"]
 
 
 def mc_serde(acc, types, mode, name, timeout=2500):
